@@ -90,38 +90,96 @@ fn run_one(host: &mut Popen, sc: &Scenario, script: Vec<u32>, rng: Option<Rng>, 
     (taken, width)
 }
 
+// ---- CPU-spin watchdog -------------------------------------------------------------------
+// A library loop that no longer issues any system call (e.g. a busy loop on a stream at EOF that
+// skips poll) cannot be seen by the simulated kernel.  A CPU-time timer (ITIMER_VIRTUAL, so machine
+// load does not matter) fires every 0.3 s of *consumed CPU*; if no interposed call happened in
+// between, the exchange is recorded as `cpu_spin`, everything recorded so far is written out and the
+// process exits with status 3 -- the driver resumes after the offending scenario.
+static mut OUT_FD: i32 = -1;
+static mut LAST_SEEN: usize = usize::MAX;
+static mut CUR_LINE: usize = 0;
+static mut PENDING: Vec<String> = Vec::new();
+
+extern "C" fn on_vtalrm(_sig: i32) {
+    unsafe {
+        let seen = simk::hooks::SEEN.load(std::sync::atomic::Ordering::Relaxed);
+        if seen != LAST_SEEN {
+            LAST_SEEN = seen;
+            return;
+        }
+        let mut buf = String::new();
+        for l in (*std::ptr::addr_of!(PENDING)).iter() {
+            buf.push_str(l);
+            buf.push('\n');
+        }
+        if let Some(sim) = csim::sim() {
+            for l in sim.trace.iter() {
+                buf.push_str(l);
+                buf.push('\n');
+            }
+            buf.push_str("{\"e\":\"cpu_spin\"}\n");
+            buf.push_str(&json!({"e":"end","choices":sim.ch.taken,"unrep":sim.unrepresentable}).to_string());
+            buf.push('\n');
+        }
+        simk::raw::write(OUT_FD, buf.as_ptr() as *const _, buf.len());
+        let msg = format!("comm_replay: CPU spin in scenario line {}\nRESUME {}\n", CUR_LINE, CUR_LINE + 1);
+        simk::raw::write(2, msg.as_ptr() as *const _, msg.len());
+        simk::raw::exit_group(3);
+    }
+}
+
 fn main() {
     let args: Vec<String> = std::env::args().collect();
     let scen_path = &args[1];
     let out_path = &args[2];
     let mut seed: u64 = 1;
+    let mut start_line = 0usize;
     let mut i = 3;
     while i < args.len() {
         if args[i] == "--seed" {
             seed = args[i + 1].parse().unwrap();
             i += 1;
+        } else if args[i] == "--start-line" {
+            start_line = args[i + 1].parse().unwrap();
+            i += 1;
         }
         i += 1;
+    }
+    unsafe {
+        libc::signal(libc::SIGVTALRM, on_vtalrm as usize);
+        let tv = libc::itimerval {
+            it_interval: libc::timeval { tv_sec: 0, tv_usec: 300_000 },
+            it_value: libc::timeval { tv_sec: 0, tv_usec: 300_000 },
+        };
+        libc::setitimer(libc::ITIMER_VIRTUAL, &tv, std::ptr::null_mut());
     }
     // a finished real child gives us a Popen whose public stream fields we overwrite
     let mut host = Popen::create(&["true"], PopenConfig::default()).expect("spawn true");
     host.wait().unwrap();
     csim::install();
 
-    let mut outf = std::io::BufWriter::new(File::create(out_path).unwrap());
+    let mut outf = std::fs::OpenOptions::new().create(true).append(start_line > 0).write(true)
+        .truncate(start_line == 0).open(out_path).unwrap();
+    unsafe {
+        use std::os::unix::io::AsRawFd;
+        OUT_FD = outf.as_raw_fd();
+    }
     let mut nruns = 0usize;
     for (li, line) in BufReader::new(File::open(scen_path).unwrap()).lines().enumerate() {
         let line = line.unwrap();
-        if line.trim().is_empty() {
+        if line.trim().is_empty() || li < start_line {
             continue;
         }
+        unsafe { CUR_LINE = li };
         let v: Value = serde_json::from_str(&line).unwrap();
         let mut sc = Scenario::from_json(&v);
         let base_id = sc.id.clone();
-        let mut lines: Vec<String> = vec![];
+        let lines: &mut Vec<String> = unsafe { &mut *std::ptr::addr_of_mut!(PENDING) };
+        lines.clear();
         if let Some(script) = v.get("script").and_then(|s| s.as_array()) {
             let script: Vec<u32> = script.iter().map(|x| x.as_u64().unwrap() as u32).collect();
-            run_one(&mut host, &sc, script, None, &mut lines);
+            run_one(&mut host, &sc, script, None, lines);
             nruns += 1;
         } else if let Some(maxruns) = v.get("dfs").and_then(|x| x.as_u64()) {
             // systematic enumeration of every scheduler decision sequence (stateless search)
@@ -129,7 +187,7 @@ fn main() {
             let mut n = 0u64;
             loop {
                 sc.id = format!("{}#d{}", base_id, n);
-                let (taken, width) = run_one(&mut host, &sc, prefix.clone(), None, &mut lines);
+                let (taken, width) = run_one(&mut host, &sc, prefix.clone(), None, lines);
                 n += 1;
                 nruns += 1;
                 // next: bump the last decision that still has an unexplored alternative
@@ -161,14 +219,16 @@ fn main() {
             for r in 0..runs {
                 sc.id = format!("{}#r{}", base_id, r);
                 let rng = Rng::new(seed ^ ((li as u64) << 20) ^ r.wrapping_mul(7919));
-                run_one(&mut host, &sc, vec![], Some(rng), &mut lines);
+                run_one(&mut host, &sc, vec![], Some(rng), lines);
                 nruns += 1;
             }
         }
-        for l in lines {
-            outf.write_all(l.as_bytes()).unwrap();
-            outf.write_all(b"\n").unwrap();
+        let mut buf = String::new();
+        for l in lines.iter() {
+            buf.push_str(l);
+            buf.push('\n');
         }
+        outf.write_all(buf.as_bytes()).unwrap();
     }
     outf.flush().unwrap();
     eprintln!("comm_replay: {} runs, interposed calls seen: {}", nruns, simk::hooks::SEEN.load(std::sync::atomic::Ordering::Relaxed));
